@@ -233,8 +233,18 @@ def write_complete_rules(ck, P):
                         while data is not None and data.get("k") == "mcall" and data.get("name") in ("as_slice", "as_ref", "as_bytes") and not data.get("a"):
                             data = ir.strip(data["recv"])
                         dh = ir.local_hid(data) if data is not None else None
-                        okz = any(z.get("k") == "mcall" and z.get("name") == "set_size" and ir.local_hid(z["recv"]) == hh and
-                                  ir.contains(z["a"][0], lambda w: w.get("k") == "mcall" and w.get("name") == "len" and ir.local_hid(w["recv"]) == dh)
+                        lets_ = comp.lets_of(tww)
+
+                        def is_len_of(e, d=0):
+                            if e is None or d > 4:
+                                return False
+                            if ir.contains(e, lambda w: w.get("k") == "mcall" and w.get("name") == "len" and ir.local_hid(w["recv"]) == dh):
+                                return True
+                            h_ = ir.local_hid(e) if ir.strip(e).get("k") in ("path", "cast") or ir.local_hid(e) is not None else None
+                            if h_ is None:
+                                h_ = next((w["hid"] for w in ir.walk_nodes(e) if w.get("k") == "path" and w.get("r") == "local"), None)
+                            return h_ in lets_ and is_len_of(lets_[h_], d + 1)
+                        okz = any(z.get("k") == "mcall" and z.get("name") == "set_size" and ir.local_hid(z["recv"]) == hh and is_len_of(z["a"][0])
                                   for s2 in sts[:i_] for z in ir.walk_nodes(s2))
                         if not okz:
                             bad_sz.append(ir.loc(y))
